@@ -74,7 +74,7 @@ def single_defs(fn_node):
         if isinstance(n, ast.Assign):
             for t in n.targets:
                 for x in ast.walk(t):
-                    if isinstance(x, ast.Name):
+                    if isinstance(x, ast.Name) and isinstance(x.ctx, ast.Store):
                         counts[x.id] = counts.get(x.id, 0) + 1
                         if t is x and len(n.targets) == 1:
                             vals[x.id] = n.value
